@@ -323,7 +323,7 @@ fn main() {
                 0 => fee2 = fee + 1,
                 1 => fee2 = fee - 1,
                 2 => { let k = rng.below(n_out as u64) as usize; outs[k].coin = outs[k].coin.wrapping_add(1); }
-                3 => { if let Some(v) = outs.iter_mut().find(|v| !v.assets.is_empty()) { let j = rng.below(v.assets.len() as u64) as usize; v.assets[j].2 += if rng.bool() { 1 } else { -1 }; if v.assets[j].2 < 0 { v.assets[j].2 = 1; } } }
+                3 => { if let Some(v) = outs.iter_mut().find(|v| !v.assets.is_empty()) { let j = rng.below(v.assets.len() as u64) as usize; v.assets[j].2 += if rng.bool() { 1 } else { -1 }; if v.assets[j].2 < 0 || (v.assets[j].2 == 0 && era == EraK::Conway) { v.assets[j].2 += 2; } } }
                 4 => { // burn of an absent asset balanced against 2^64 - k
                     let k = rng.range(1, 9) as i128; let pn = (pol(3), nam(2));
                     mint.push((pn.0.clone(), pn.1.clone(), -k));
